@@ -74,6 +74,26 @@ def build_harness(repo_build):
         os.replace(exe + ".tmp", exe)
         return exe, None
 
+def build_alloc_harness(repo_build):
+    """harness/alloc/psv_alloc.cpp: replaces operator new/delete (fault injection + ledger)"""
+    hs = tree_hash([os.path.join(VERIF, "harness", "alloc"), os.path.join(VERIF, "harness", "oracle_fast.cpp")])[:12]
+    exe = os.path.join(repo_build, f"psv_alloc-{hs}")
+    with Lock("harness-build"):
+        if os.path.exists(exe):
+            return exe, None
+        o = os.path.join(repo_build, f"oracle_fast.alloc.{hs}.o")
+        rc, out, err = run(["g++", "-std=gnu++17", "-O2", "-c", os.path.join(VERIF, "harness", "oracle_fast.cpp"), "-o", o])
+        if rc != 0:
+            return None, (out + err)[-6000:]
+        cmd = ["g++", "-std=gnu++17"] + CXXFLAGS.split() + [
+            f"-I{REPO}/include", f"-I{REPO}/src", os.path.join(VERIF, "harness", "alloc", "psv_alloc.cpp"), o,
+            os.path.join(repo_build, "libprimesieve.a"), "-lpthread", "-o", exe + ".tmp"]
+        rc, out, err = run(cmd)
+        if rc != 0:
+            return None, (out + err)[-6000:]
+        os.replace(exe + ".tmp", exe)
+        return exe, None
+
 def translate():
     """regenerate lean/PsModel/Generated from /repo; returns (info dict, fail list)"""
     with Lock("lake"):
